@@ -42,9 +42,9 @@ CLASSES = gen.INSTANCE_CLASSES + ["recirc", "flexible", "zero"]
 def gen_cases(ctx):
     yield from W.gen_cases(
         ctx,
-        n_hist=ctx.scale(3500, 100000),
-        n_tree=ctx.scale(60, 2500),
-        n_consumer=ctx.scale(200, 5000),
+        n_hist=ctx.scale(3500, 600000),
+        n_tree=ctx.scale(60, 15000),
+        n_consumer=ctx.scale(200, 30000),
         tree_ops=(5, 7) if ctx.tier == "quick" else (6, 9),
         big=True,
         classes=CLASSES,
@@ -112,7 +112,10 @@ class H(W.Hooks):
             ctx.violation("c02_replay_after_reset_differs",
                           {"got": schedule_triples(run.d.schedule), "want": original})
         # (c) GIF/video frame replay path (no-op plotter records what it is shown)
-        if len(r.history) <= 30 and ctx.counters["replay_frames"] < (150 if ctx.tier == "quick" else 10**9):
+        # frame files are written for each replayed step (~10 ms each): a share of the histories
+        if len(r.history) <= 30 and (
+                ctx.counters["replay_frames"] < 150 if ctx.tier == "quick"
+                else (len(r.history) * 7 + r.makespan()) % 25 == 0):
             from matplotlib.figure import Figure
             from job_shop_lib.visualization import create_gantt_chart_frames
             shown = []
